@@ -83,7 +83,8 @@ def dk(k):
         if tag == "intsub":
             return IntSub(int(v))
         if tag == "f":
-            return float(v)
+            import math
+            return math.nan if v == "nan" else float(v)        # the one nan object: a key that is not equal to itself
         if tag == "tup":
             return tuple(json.loads(v))
         if tag == "none":
@@ -493,7 +494,7 @@ def typed_literals(m):
         if type(x) is float:
             return x != x or x in (float("inf"), float("-inf"))          # nan / inf print as bare names
         return not (x is None or type(x) in (int, str, bool, StrSub, IntSub) or callable(x) or isinstance(x, xd.Manager))
-    return any(lit(t.expr) for t in m.tasks.values() if isinstance(t, ExprTask))
+    return any(lit(t.expr) or lit(t.taskid) for t in m.tasks.values() if isinstance(t, ExprTask))
 
 
 def load_definitions(m, m2, roots2):
@@ -625,6 +626,37 @@ def snapshot(m, roots_data, knobs):
             for t in m.tasks.values() if isinstance(t, LinearKnob)]
     return {"store": st, "indices": idx, "tasks": tasks, "prev": prev, "frozen": bool(m._tree_frozen),
             "dump": [[a, b] for a, b in m.dump()]}
+
+
+def spec_leaf_paths(store):
+    """the leaf locations of a store spec as paths"""
+    out = []
+
+    def walk(node, pre):
+        stp = "i" if node["kind"] in ("dict", "list", "userdict") else "a"
+        for k, v in node["items"]:
+            if isinstance(v, dict):
+                walk(v, pre + [[stp, k]])
+            else:
+                out.append(pre + [[stp, k]])
+    for label, node in store:
+        if isinstance(node, dict) and label != "f":
+            walk(node, [label])
+    return out
+
+
+def frozen_queries(m, roots, paths):
+    """the read-only query API asked about every leaf location (also locations nothing was ever asked about): the tasks
+    writing it, the locations depending on it - or the class of the exception the query raised"""
+    out = []
+    for p in paths:
+        try:
+            r = mkref(roots, p)
+            out.append([sorted(str(t) for t in r._tasks), sorted(str(x) for x in r._find_dependant_targets()),
+                        sorted(str(x) for x in m.find_deps([r]))])
+        except Exception as e:
+            out.append("QUERY RAISED " + exc_name(e))
+    return out
 
 
 def canon_ok(m):
@@ -1154,6 +1186,7 @@ def run_case(case, opts):
         else:
             roots[label] = m.ref(data, label)
     out = []
+    qpaths = spec_leaf_paths(case["store"])
     snap = opts.get("snapshots", True)
     nops = len(case["ops"])
     for iop, op in enumerate(case["ops"]):
@@ -1180,6 +1213,7 @@ def run_case(case, opts):
                     # structurally equal one, literal TYPES included) - not an earlier one that merely prints the same
                     if isinstance(assigned, BaseRef) and not same_expr(ref._expr, assigned):
                         obs["defn"] = f"{ref} was assigned {assigned} but its definition is {ref._expr!r} (literal types compared)"
+                    assigned = None          # the harness keeps no expression alive: replaced definitions are freed
             elif kind == "inplace":
                 ref = mkref(roots, op[1])
                 sd_refs = ref._get_dependencies()
@@ -1253,6 +1287,46 @@ def run_case(case, opts):
                         m.copy_expr_from(ms, label, overwrite=op[2])
                 else:
                     m.load(dump, overwrite=op[2])
+            elif kind == "collide":
+                # distinct deep locations c[k]['m']['x'] whose reference objects hash equally (the stored hash of the compiled
+                # classes is a C int: among a few hundred thousand references some collide): each pair gets two definitions
+                # over one source; both must be kept apart and follow their own expression
+                root = roots["c"]
+                seen, pairs = {}, []
+                for kk in ("k%d" % j for j in range(op[1])):          # string keys: their hashes are spread by the hash seed
+                    h = hash(root[kk]["m"]["x"])
+                    if h in seen and len(pairs) < 6:
+                        pairs.append((seen[h], kk))
+                    seen[h] = kk
+                seen = None
+                res = {"pairs": len(pairs), "problems": []}
+                data = roots_data["c"]
+                for a, b in pairs:
+                    for kk in (a, b):
+                        dict.__setitem__(data, kk, FDict({"m": FDict({"x": 0})}))
+                    ra, rb = root[a]["m"]["x"], root[b]["m"]["x"]
+                    n0 = len(m.tasks)
+                    m.set_value(ra, root["s"] * 2)
+                    m.set_value(rb, root["s"] * 5)
+                    m.set_value(root["s"], 3)
+                    got = (data[a]["m"]["x"], data[b]["m"]["x"], len(m.tasks) - n0, ra == rb)
+                    if got != (6, 15, 2, False):
+                        res["problems"].append(f"locations c[{a!r}]['m']['x'] and c[{b!r}]['m']['x'] (equal hashes): values, new tasks, equal? = {got}, expected (6, 15, 2, False)")
+                    m.unregister(ra) if ra in m.tasks else None
+                    m.unregister(rb) if rb in m.tasks else None
+                    for kk in (a, b):
+                        dict.__delitem__(data, kk)
+                obs["collide"] = res
+            elif kind == "dupref":
+                # a second container offered under a label that is taken: refused, and the caller carries on with the manager
+                import copy
+                try:
+                    getattr(m, op[2])(copy.deepcopy(roots_data[op[1]]), op[1])
+                    obs["registry"] = f"Manager.{op[2]} accepted a second container under the label {op[1]!r}"
+                except AssertionError:
+                    if m.containers[op[1]]._owner is not roots_data[op[1]]:
+                        obs["registry"] = (f"Manager.{op[2]} refused a second container under the label {op[1]!r} but the registry "
+                                           "now points at the refused object")
             elif kind == "freeze":
                 m.freeze_tree()
             elif kind == "unfreeze":
@@ -1325,6 +1399,9 @@ def run_case(case, opts):
         if kind != "genfun":
             obs["start_order"] = STARTS[-1] if STARTS and kind in ("set", "inplace") else []
         obs.setdefault("start_order", [])
+        if snap and m._tree_frozen:
+            # asked BEFORE the snapshot: a query must not change what the snapshot shows (empty index entries are not listed)
+            obs["queries"] = frozen_queries(m, roots, qpaths)
         if snap:
             obs.update(snapshot(m, roots_data, None))
         elif heavy:
@@ -1349,6 +1426,8 @@ def run_case(case, opts):
                     orc["fun_inconsistent"] = fun_consistency(m, obs["trace"])
         if obs.get("defn") and obs["err"] is None:
             orc["defn"] = obs["defn"]
+        if any(o2.get("registry") for o2 in out) or obs.get("registry"):
+            orc["canon"] = list(orc["canon"]) + [next(o2["registry"] for o2 in out + [obs] if o2.get("registry"))]
         obs["oracle"] = orc
         FAULT["n"] = saved
         FAULT["rn"] = saved_r
